@@ -388,3 +388,10 @@ VARIANTS += [
     V("C04", "by-name re-export matched by plain suffix again", VIS, "if f\".{qname}\".endswith(f\".{qualified_import.qualified_name}\") and (", "if qname.endswith(qualified_import.qualified_name) and (", "C04.REEXPORT-GUARDS"),
     V("C04", "every name ending in two underscores exempt again", VIS, "if is_internal(name) and not (name.startswith(\"__\") and name.endswith(\"__\")):", "if is_internal(name) and not name.endswith(\"__\"):", "C04.PUBLICITY-TABLE"),
 ]
+VARIANTS += [
+    V("C20", "benign: marker added through a local alias of the pending set", GEN, "            if name == \"Set\":\n                self._current_todo_msgs.add(\"no set support\")", "            if name == \"Set\":\n                pending = self._current_todo_msgs\n                pending.add(\"no set support\")", None),
+    V("C04", "benign: dunder test in a nested if", VIS, "        if is_internal(name) and not (name.startswith(\"__\") and name.endswith(\"__\")):\n            return False\n",
+      "        if is_internal(name):\n            is_dunder = name.startswith(\"__\") and name.endswith(\"__\")\n            if not is_dunder:\n                return False\n", None),
+    V("C15", "benign: excluded directories as a set intersection", GA, "if not is_test_run and (\"test\" in file_path.parts or \"tests\" in file_path.parts or \"docs\" in file_path.parts):", "if not is_test_run and {\"test\", \"tests\", \"docs\"} & set(file_path.parts):", None),
+    V("C05", "benign: nullable length test flipped", GEN, "if len(types) == 2 and none_type_name in types and has_named_type:", "if 2 == len(types) and none_type_name in types and has_named_type:", None),
+]
